@@ -1,4 +1,227 @@
-use crate::core::{Ctx, Outcome};
-use serde_json::Value;
-pub fn run(_ctx: &Ctx) -> Outcome { unimplemented!() }
-pub fn replay(_ctx: &Ctx, _r: &Value) -> i32 { 2 }
+//! Independent reference model of the BEP3 peer wire format: encoder, single-message decoder and
+//! stream decoder. Written from the BEP3 text, shares no code with rdest.
+
+pub const PSTR: &[u8; 19] = b"BitTorrent protocol";
+pub const MAX_FRAME: usize = 65536;
+pub const BLOCK: usize = 16384;
+
+#[derive(Clone, Debug, PartialEq, Eq, Hash, PartialOrd, Ord)]
+pub enum Msg {
+    Handshake { reserved: [u8; 8], info_hash: [u8; 20], peer_id: [u8; 20] },
+    KeepAlive,
+    Choke,
+    Unchoke,
+    Interested,
+    NotInterested,
+    Have(u32),
+    Bitfield(Vec<u8>),
+    Request(u32, u32, u32),
+    Piece(u32, u32, Vec<u8>),
+    Cancel(u32, u32, u32),
+}
+
+impl Msg {
+    pub fn short(&self) -> String {
+        match self {
+            Msg::Handshake { info_hash, peer_id, .. } => format!(
+                "Handshake(hash={}..,id={})",
+                crate::core::hex(&info_hash[..3]),
+                crate::core::show(&peer_id[..4])
+            ),
+            Msg::Piece(i, b, d) => format!("Piece({},{},{}B)", i, b, d.len()),
+            Msg::Bitfield(b) => format!("Bitfield({})", crate::core::hex(b)),
+            other => format!("{:?}", other),
+        }
+    }
+}
+
+pub fn handshake(info_hash: &[u8; 20], peer_id: &[u8; 20]) -> Msg {
+    Msg::Handshake {
+        reserved: [0; 8],
+        info_hash: *info_hash,
+        peer_id: *peer_id,
+    }
+}
+
+fn lp(id: u8, body: &[u8]) -> Vec<u8> {
+    let mut v = ((1 + body.len()) as u32).to_be_bytes().to_vec();
+    v.push(id);
+    v.extend_from_slice(body);
+    v
+}
+
+pub fn encode(m: &Msg) -> Vec<u8> {
+    match m {
+        Msg::Handshake { reserved, info_hash, peer_id } => {
+            let mut v = vec![19u8];
+            v.extend_from_slice(PSTR);
+            v.extend_from_slice(reserved);
+            v.extend_from_slice(info_hash);
+            v.extend_from_slice(peer_id);
+            v
+        }
+        Msg::KeepAlive => vec![0, 0, 0, 0],
+        Msg::Choke => lp(0, &[]),
+        Msg::Unchoke => lp(1, &[]),
+        Msg::Interested => lp(2, &[]),
+        Msg::NotInterested => lp(3, &[]),
+        Msg::Have(i) => lp(4, &i.to_be_bytes()),
+        Msg::Bitfield(b) => lp(5, b),
+        Msg::Request(i, b, l) => {
+            let mut body = i.to_be_bytes().to_vec();
+            body.extend_from_slice(&b.to_be_bytes());
+            body.extend_from_slice(&l.to_be_bytes());
+            lp(6, &body)
+        }
+        Msg::Piece(i, b, d) => {
+            let mut body = i.to_be_bytes().to_vec();
+            body.extend_from_slice(&b.to_be_bytes());
+            body.extend_from_slice(d);
+            lp(7, &body)
+        }
+        Msg::Cancel(i, b, l) => {
+            let mut body = i.to_be_bytes().to_vec();
+            body.extend_from_slice(&b.to_be_bytes());
+            body.extend_from_slice(&l.to_be_bytes());
+            lp(8, &body)
+        }
+    }
+}
+
+/// Bit i of a bitfield = bit (7 - i mod 8) of byte i / 8.
+pub fn bitfield_bytes(bits: &[bool]) -> Vec<u8> {
+    let mut out = vec![0u8; (bits.len() + 7) / 8];
+    for (i, b) in bits.iter().enumerate() {
+        if *b {
+            out[i / 8] |= 1 << (7 - (i % 8));
+        }
+    }
+    out
+}
+
+pub fn bitfield_bits(bytes: &[u8], n: usize) -> Option<Vec<bool>> {
+    if bytes.len() != (n + 7) / 8 {
+        return None;
+    }
+    Some((0..n).map(|i| bytes[i / 8] & (1 << (7 - (i % 8))) != 0).collect())
+}
+
+fn be(b: &[u8]) -> u32 {
+    u32::from_be_bytes([b[0], b[1], b[2], b[3]])
+}
+
+#[derive(Clone, Debug, PartialEq)]
+pub enum Step {
+    /// A complete message and the number of bytes it occupies.
+    Msg(Msg, usize),
+    /// A complete message with an id this client does not know; skipped.
+    Skip(u8, usize),
+    /// The buffer is a proper prefix of one frame.
+    NeedMore,
+    /// The stream is undecodable; the error must have been raised by the time `due` bytes of this
+    /// frame have arrived (the whole malformed message, or the 5-byte header of an oversized one).
+    Error(&'static str, usize),
+}
+
+/// Decode the next message at the start of `buf`.
+pub fn next(buf: &[u8]) -> Step {
+    if buf.is_empty() {
+        return Step::NeedMore;
+    }
+    if buf[0] == 19 {
+        // only a handshake starts with 0x13: as a length prefix it would announce >= 318 MB
+        let n = buf.len().min(20);
+        if buf[1..n] != PSTR[..n - 1] {
+            return Step::Error("bad protocol string / oversized", 68);
+        }
+        if buf.len() < 68 {
+            return Step::NeedMore;
+        }
+        let mut reserved = [0u8; 8];
+        reserved.copy_from_slice(&buf[20..28]);
+        let mut info_hash = [0u8; 20];
+        info_hash.copy_from_slice(&buf[28..48]);
+        let mut peer_id = [0u8; 20];
+        peer_id.copy_from_slice(&buf[48..68]);
+        return Step::Msg(Msg::Handshake { reserved, info_hash, peer_id }, 68);
+    }
+    if buf.len() < 4 {
+        return Step::NeedMore;
+    }
+    let len = be(&buf[0..4]) as usize;
+    if len == 0 {
+        return Step::Msg(Msg::KeepAlive, 4);
+    }
+    if len > MAX_FRAME {
+        return Step::Error("oversized frame", 5);
+    }
+    if buf.len() < 5 {
+        return Step::NeedMore;
+    }
+    let id = buf[4];
+    let fixed = match id {
+        0..=3 => Some(1),
+        4 => Some(5),
+        6 | 8 => Some(13),
+        _ => None,
+    };
+    if let Some(f) = fixed {
+        if len != f {
+            return Step::Error("wrong length for message id", 4 + len);
+        }
+    }
+    if id == 7 && len < 9 {
+        return Step::Error("piece message shorter than its header", 4 + len);
+    }
+    if buf.len() < 4 + len {
+        return Step::NeedMore;
+    }
+    let body = &buf[5..4 + len];
+    let m = match id {
+        0 => Msg::Choke,
+        1 => Msg::Unchoke,
+        2 => Msg::Interested,
+        3 => Msg::NotInterested,
+        4 => Msg::Have(be(body)),
+        5 => Msg::Bitfield(body.to_vec()),
+        6 => Msg::Request(be(&body[0..4]), be(&body[4..8]), be(&body[8..12])),
+        7 => Msg::Piece(be(&body[0..4]), be(&body[4..8]), body[8..].to_vec()),
+        8 => Msg::Cancel(be(&body[0..4]), be(&body[4..8]), be(&body[8..12])),
+        other => return Step::Skip(other, 4 + len),
+    };
+    Step::Msg(m, 4 + len)
+}
+
+/// Decode as many complete messages as `buf` holds. Returns (messages, bytes consumed, error).
+pub fn decode_stream(buf: &[u8]) -> (Vec<Msg>, usize, Option<&'static str>) {
+    let mut pos = 0;
+    let mut out = vec![];
+    loop {
+        match next(&buf[pos..]) {
+            Step::Msg(m, n) => {
+                out.push(m);
+                pos += n;
+            }
+            Step::Skip(_, n) => pos += n,
+            Step::NeedMore => return (out, pos, None),
+            Step::Error(e, _) => return (out, pos, Some(e)),
+        }
+    }
+}
+
+/// Decode the concatenation of everything a client wrote on one connection; every write must end
+/// on a message boundary (rdest writes one message per `write_all`).
+pub fn decode_writes(writes: &[Vec<u8>]) -> Result<Vec<Msg>, String> {
+    let mut all = vec![];
+    for w in writes {
+        let (msgs, used, err) = decode_stream(w);
+        if let Some(e) = err {
+            return Err(format!("client wrote undecodable bytes: {}", e));
+        }
+        if used != w.len() {
+            return Err("client wrote a partial message".to_string());
+        }
+        all.extend(msgs);
+    }
+    Ok(all)
+}
